@@ -89,6 +89,8 @@ type SimDisk struct {
 	ReadsInFlight    map[string]int // tag -> reads entered and not returned
 	MaxReadsInFlight int
 	Misuse           []string // handle misuse observations (C21)
+	OOB              []string // reads no reader of a file of that size can need (C19)
+	OOBLimit         int      // size of the largest valid file image (metadata held elsewhere may describe it)
 }
 
 type HandleState struct {
@@ -362,6 +364,11 @@ func (x *simReader) Read(p []byte) (int, error) {
 	case FCtx:
 		x.d.endCall(c, 0, x.ctx.Err())
 		return 0, x.ctx.Err()
+	}
+	if limit := max(len(x.data), x.d.OOBLimit); len(p) > limit+64 || x.pos > int64(limit) {
+		x.d.mu.Lock()
+		x.d.OOB = append(x.d.OOB, fmt.Sprintf("Read of %d bytes at offset %d on %s, a %d-byte file", len(p), x.pos, x.hs.Ptr, len(x.data)))
+		x.d.mu.Unlock()
 	}
 	if x.pos >= int64(len(x.data)) {
 		x.d.endCall(c, 0, io.EOF)
